@@ -385,6 +385,34 @@ func (k *checker) tcbTimeCombos(v *vector, mk func(kind string) tcbCase) {
 			}
 			tIssue, _ := time.Parse(pcs.TimestampFormat, rti.IssueDate)
 			qIssue, _ := time.Parse(pcs.TimestampFormat, rqe.IssueDate)
+			fill := func(tc *tcbCase) {
+				tc.TCBInfoSrc, tc.QEIDSrc = tn, qn
+				tc.FMSPC = rti.FMSPC
+				for j := 0; j < 16; j++ {
+					tc.Comp[j] = lvl.TCB.SGX[j].SVN
+					if tc.TDXSvn != nil {
+						// All 16 from the level (index 1 = module version 0 in the vectors: no module check).
+						tc.TDXSvn[j] = byte(lvl.TCB.TDX[j].SVN)
+					}
+				}
+				tc.PCESVN = lvl.TCB.PCESVN
+			}
+			// Minimum evaluation data number against each document separately (the vectors' own pairs
+			// carry equal numbers, so only mixed pairs show which document's number is checked).
+			later := tIssue
+			if qIssue.After(later) {
+				later = qIssue
+			}
+			for _, m := range []uint32{0, rti.EvalNum - 1, rti.EvalNum, rti.EvalNum + 1, rqe.EvalNum - 1, rqe.EvalNum, rqe.EvalNum + 1, 1<<32 - 1} {
+				tc := mk(fmt.Sprintf("min-eval/%s/min=%d,tcbinfo=%s(%d),qeid=%s(%d)", wantTI, m, tn, rti.EvalNum, qn, rqe.EvalNum))
+				fill(&tc)
+				pol := *tc.Policy
+				pol.TCBValidityPeriod = 65535
+				pol.MinTCBEvaluationDataNumber = m
+				tc.Policy = &pol
+				tc.TSSec = later.Unix() + 3600
+				cases = append(cases, tc)
+			}
 			for _, val := range []uint16{0, 30, 90, 365, 1000} {
 				bs := []boundary{
 					{"tcb-info-issue", tIssue}, {"qe-identity-issue", qIssue},
@@ -394,16 +422,7 @@ func (k *checker) tcbTimeCombos(v *vector, mk func(kind string) tcbCase) {
 				for _, b := range bs {
 					for _, d := range []time.Duration{-time.Second, -1, 0, 1, time.Second} {
 						tc := mk(fmt.Sprintf("time/%s/%s%+dns@V=%d/tcbinfo=%s,qeid=%s", wantTI, b.Name, int64(d), val, tn, qn))
-						tc.TCBInfoSrc, tc.QEIDSrc = tn, qn
-						tc.FMSPC = rti.FMSPC
-						for j := 0; j < 16; j++ {
-							tc.Comp[j] = lvl.TCB.SGX[j].SVN
-							if tc.TDXSvn != nil {
-								// All 16 from the level (index 1 = module version 0 in the vectors: no module check).
-								tc.TDXSvn[j] = byte(lvl.TCB.TDX[j].SVN)
-							}
-						}
-						tc.PCESVN = lvl.TCB.PCESVN
+						fill(&tc)
 						pol := *tc.Policy
 						pol.TCBValidityPeriod = val
 						tc.Policy = &pol
